@@ -326,9 +326,9 @@ theorem sortedMapEntries_norm_rel {kvs kvs' : List (GoVal × GoVal)} (hn : normK
 theorem mkPair_norm (k v : GoVal) : (mkPair k v).norm d = .slice .any [k.norm d, v.norm d] := by
   simp [mkPair, norm, normList]
 
-theorem loopItems_unw_rel {u u' : GoVal} (hu : Unw u) (hu' : Unw u') (h : RepEq d u u') :
-    (∃ xs xs', loopItems u = .ok xs ∧ loopItems u' = .ok xs' ∧ normList d xs = normList d xs') ∨
-    (loopItems u = loopItems u' ∧ ∀ xs, loopItems u ≠ .ok xs) := by
+theorem loopItems_unw_rel {budget : Int} {u u' : GoVal} (hu : Unw u) (hu' : Unw u') (h : RepEq d u u') :
+    (∃ xs xs', loopItems budget u = .ok xs ∧ loopItems budget u' = .ok xs' ∧ normList d xs = normList d xs') ∨
+    (loopItems budget u = loopItems budget u' ∧ ∀ xs, loopItems budget u ≠ .ok xs) := by
   cases u with
   | drop w => exact absurd hu.noDrop (by simp [noDrop])
   | slice t xs =>
@@ -339,7 +339,7 @@ theorem loopItems_unw_rel {u u' : GoVal} (hu : Unw u) (hu' : Unw u') (h : RepEq 
     cases u' <;> simp [seqElems?] at hs <;> subst hs <;> exact .inl ⟨_, _, rfl, rfl, hn⟩
   | map kt vt kvs =>
     rcases norm_inv_map hu'.noDrop h with rfl | ⟨_, vt', kvs', rfl, _, hn⟩
-    · cases hl : loopItems (.map kt vt kvs) with
+    · cases hl : loopItems budget (.map kt vt kvs) with
       | ok xs => exact .inl ⟨xs, xs, rfl, rfl, rfl⟩
       | _ => exact .inr ⟨rfl, by simp⟩
     · simp only [loopItems]
@@ -362,7 +362,7 @@ theorem loopItems_unw_rel {u u' : GoVal} (hu : Unw u) (hu' : Unw u') (h : RepEq 
     subst this
     first
     | exact .inl ⟨_, _, rfl, rfl, rfl⟩
-    | (cases hl : loopItems _ with
+    | (cases hl : loopItems budget _ with
        | ok xs => exact .inl ⟨xs, xs, rfl, rfl, rfl⟩
        | _ => exact .inr ⟨rfl, by simp⟩)
 
